@@ -2,7 +2,14 @@
 # tools/runmutant.sh <diff> <ID> [tier] [extra zsim options] : apply a mutant to /repo, run the check, always revert.
 set -u
 diff="$1"; id="$2"; tier="${3:-quick}"; shift; shift; [ $# -gt 0 ] && shift
-cd /repo && git apply "$diff" || { echo "cannot apply $diff"; exit 3; }
+cd /repo
+if ! git apply "$diff" 2>/dev/null; then
+  # the change was written against an earlier HEAD (later fix: commits touched neighbouring lines):
+  # apply with fuzz, discard rejects; a change that still does not apply is reported
+  if ! patch -p1 -s --fuzz=3 --no-backup-if-mismatch -r - < "$diff" >/dev/null 2>&1; then
+    git checkout -- . ; echo "cannot apply $diff"; exit 3
+  fi
+fi
 cd /verif && ./check "$id" "$tier" --no-evidence "$@" > "/verif/.cache/mutant.out" 2>&1; rc=$?
 cd /repo && git checkout -- .
 grep -E "^(VIOLATION|violation:|HARNESS-ERROR|OK )" /verif/.cache/mutant.out | cut -c1-400 | head -8
